@@ -211,11 +211,9 @@ func wrapBranch(name string, message profile.Message, branch BranchRegoResult, m
 	for i, r := range branch.Branch {
 		bindingResult := fmt.Sprintf("_result_%d", i)
 		resultBindings = append(resultBindings, bindingResult)
-		traceResultPath := r.Path
-		if iriExpander != nil {
-			traceResultPath, _ = iriExpander.Expand(r.Path)
-		}
-		matchesLine := fmt.Sprintf("  %s := trace(\"%s\",\"%s\",%s,%s)", bindingResult, r.ConstraintId(), traceResultPath, r.TraceNode, r.TraceValue)
+		// r.Path is the rendering made by PropertyPath.Trace: it holds expanded IRIs already (expanding it once more would
+		// rewrite an IRI that happens to look like prefix.name)
+		matchesLine := fmt.Sprintf("  %s := trace(\"%s\",\"%s\",%s,%s)", bindingResult, r.ConstraintId(), r.Path, r.TraceNode, r.TraceValue)
 		for _, l := range r.Rego {
 			// $message is a placeholder of embedded Rego code only; the same characters inside the
 			// values or patterns of declarative constraints are plain data
